@@ -172,10 +172,12 @@ def as_formatted_lines(lines):
     if not lines:
         return ''
     formatted = []
-    for line in lines:
+    for i, line in enumerate(lines):
         is_blank = not line.strip()
         if is_blank:
-            formatted.append('.')
+            # a blank first line is not a continuation line: a full stop there
+            # would be decoded as a literal full stop
+            formatted.append('.' if i else '')
         else:
             formatted.append(f'{line}')
     return '\n '.join(formatted)
@@ -266,8 +268,8 @@ class DescriptionField(FieldMixin):
         if text:
             if text.startswith(' '):
                 text = text[1:]
-            dumped.append(as_formatted_text(text))
-        return '\n '.join(dumped)
+            dumped.extend(text.splitlines(False))
+        return as_formatted_lines(dumped)
 
 
 @attrs
